@@ -279,17 +279,17 @@ std::string opSd(const std::vector<std::string>& w)
         // shutdown() once more, which would hide a wake-up lost by the first call)
         {
             std::unique_lock<std::mutex> lk(g_m);
-            g_cv.wait_for(lk, std::chrono::milliseconds(1500), [&] { for (auto& a : g_acts) if (a->state != Exited) return false; return true; });
+            g_cv.wait_for(lk, std::chrono::milliseconds(4000), [&] { for (auto& a : g_acts) if (a->state != Exited) return false; return true; });
             for (size_t i = 0; i < g_acts.size(); ++i)
                 if (g_acts[i]->state != Exited) alive += (alive.empty() ? "" : ",") + (i == 0 ? std::string("A") : "W" + std::to_string(i - 1));
         }
         listener.reset();            // ~Listener joins the acceptor, ~Reactor joins the workers
         finished = true;
     });
-    for (int i = 0; i < 700 && !finished; ++i) std::this_thread::sleep_for(std::chrono::milliseconds(10));
+    for (int i = 0; i < 1200 && !finished; ++i) std::this_thread::sleep_for(std::chrono::milliseconds(10));
     if (!finished) {
         // threads that cannot end cannot be cleaned up either: report and leave (the line after this one restarts the driver)
-        fprintf(stderr, "sd: threads still alive 7 s after shutdown(): trace %s\n", trace.c_str());
+        fprintf(stderr, "sd: threads still alive 12 s after shutdown(): trace %s\n", trace.c_str());
         _exit(98);
     }
     finisher.join();
